@@ -235,7 +235,7 @@ def r3_name_selector(ctx):
     fn = [st for st in walk_no_nested(f, False) if isinstance(st, ast.Assign)
           and norm(st.targets[0]) == "fnames"]
     ok = len(fn) == 1 and norm(fn[0].value) == \
-        "cls.get_feature_names(which_type=which_type, names=names)"
+        "cls.get_feature_names(names=names, which_type=which_type)"
     ctx.check(ok, f, "loader columns = get_feature_names(which_type, names)",
               "the loader's columns are not selected by get_feature_names")
     wt = [st for st in walk_no_nested(f, False) if isinstance(st, ast.Assign)
